@@ -50,7 +50,7 @@ def run(ctx, res):
     res.guard(RR.rule_thread_exit, prog, res)
     res.guard(RR.rule_start_reset, prog, res)
     # what the failing sink discards is the whole rest of its input, in a loop until empty
-    res.guard(RR.rule_consume, prog, res, "video_sink_thread", "append")
+    res.guard(RR.rule_consume_file, prog, res, "video_sink_thread", "append")
     res.guard(RR.rule_loop_until_empty, prog, res, "video_sink_thread", "last")
     # a failed / not yet filled reservation of the source is never published by the filter
     from .c10 import commit_own
